@@ -693,6 +693,277 @@ def _noop_table():
     return N
 
 
+
+def _branch_table():
+    """one argument set per documented branch of the option-dependent code paths (one-site vs two-site vs long-range
+    `where`, every `contract=` mode, gauges given / empty, tags vs sites, swap directions, modes, start/stop ...)"""
+    import quimb.tensor as qtn
+    B = {}
+
+    def add(key, *cases):
+        B.setdefault(key, []).extend(cases)
+
+    def bc(recv, args, tag, **kw):
+        return Case(recv, args, label="%s %s" % (recv, tag), **kw)
+
+    def gate(n, where, **kw):
+        return lambda x, h: ((h.G(2 ** n), where), dict(kw))
+
+    SPLITS = ("split", "reduce-split", "split-gate", "swap-split-gate", "auto-split-gate")
+    co = {"cutoff": 0.0}
+
+    # ---- TensorNetwork.gate_inds / gate_sandwich_inds
+    k = lambda n: ("TensorNetwork", n)  # noqa
+    for c in (False, True, "split-gate", "auto-split-gate"):
+        add(k("gate_inds"), bc("TN", (lambda x, h, c=c: ((h.G(2), ("k2",)), {"contract": c})), "1 ind contract=%s" % c))
+    for c in (False, True) + SPLITS:
+        add(k("gate_inds"), bc("TN", (lambda x, h, c=c: ((h.G(4), ("k1", "k2")), dict(co, contract=c))), "2 inds contract=%s" % c, gauge=True))
+    for c in (False, True, "auto-split-gate"):
+        add(k("gate_inds"), bc("TN", (lambda x, h, c=c: ((h.G(8), ("k3", "k0", "k2")), {"contract": c})), "3 inds contract=%s" % c))
+    add(k("gate_inds"),
+        bc("TN", lambda x, h: ((h.G(4), ("k0", "k2")), {"dagger": True, "tags": ("GATE", "G2")}), "dagger tags"),
+        bc("TN", lambda x, h: ((h.G(4), ("k0", "k2")), {"transpose": True, "contract": True}), "transpose contract"),
+        bc("TN", lambda x, h: ((h.G(4), ("k0", "k1")), dict(co, contract="split", info={})), "split info", gauge=True),
+        bc("TN", lambda x, h: ((h.G(4).reshape(2, 2, 2, 2), ("k0", "k1")), {}), "tensor-shaped gate"))
+    for c in (False, True, "split", "reduce-split"):
+        add(k("gate_sandwich_inds"),
+            bc("MPO", (lambda x, h, c=c: ((h.G(2), ("k1",), ("b1",)), dict(co, contract=c))), "1 ind contract=%s" % c, gauge=True),
+            bc("MPO", (lambda x, h, c=c: ((h.G(4), ("k1", "k2"), ("b1", "b2")), dict(co, contract=c))), "2 inds contract=%s" % c, gauge=True))
+    add(k("gate_sandwich_inds"),
+        bc("MPO", lambda x, h: ((h.G(4), ("k0", "k1"), ("b0", "b1")), {"dagger": True, "tags_upper": ("UP",), "tags_lower": ("LO",), "tags": ("G",)}), "dagger tags"))
+
+    # ---- contraction / selection options of TensorNetwork
+    add(k("contract_tags"),
+        bc("TN", A(("I0", "EVEN"), which="all"), "which=all"),
+        bc("TN", A(("I0",), which="!any"), "which=!any"),
+        bc("TN", A(("I0", "I1"), output_inds=("k0", "k1", "b1", "b3")), "output_inds"),
+        bc("TN", A(("I0", "I1", "I2", "I3"), preserve_tensor=True), "all preserve_tensor", collapse=True),
+        bc("TNhyper", A(("I0", "I1"), output_inds=("k0", "k1", "h")), "hyper output"))
+    add(k("contract"),
+        bc("TN", A(..., preserve_tensor=True), "all preserve_tensor", collapse=True),
+        bc("TN", A(("EVEN",)), "tag sequence"),
+        bc("TN", A(..., max_bond=8), "max_bond (compressed)", collapse=True, gauge=True),
+        bc("TN", A(all, optimize="greedy"), "all optimize", collapse=True),
+        bc("TN", A(["I0", "I1"], backend="numpy"), "backend"))
+    add(k("conj"), bc("TN", A(output_inds=("k0", "k1", "k2", "k3")), "output_inds"), bc("MPS", A(mangle_inner=True), "mangle MPS"))
+    add(k("multiply"), bc("TN", A(-2.0, spread_over="all"), "spread all negative"), bc("TN", A(0.5j, spread_over=1), "spread 1 complex"))
+    add(k("isel"), bc("TN", A({"k0": slice(0, 1), "b2": 1}), "slice+int"), bc("TNhyper", A({"h": 1}), "hyper index"), bc("PEPS", A({"k0,1": 0}), "PEPS"))
+    add(k("squeeze"), bc("TNmulti", A(include=("s",)), "include"), bc("TNmulti", A(fuse=True, exclude=("o",)), "fuse exclude"))
+    for mode in ("zeros", "repeat", "random"):
+        add(k("expand_bond_dimension"), bc("TN", A(4, mode=mode), "mode=%s" % mode, rnd=(mode == "random")))
+    add(k("expand_bond_dimension"), bc("TN", A(5, rand_strength=0.1, rand_dist="uniform"), "uniform", rnd=True), bc("PEPS", A(3), "PEPS"))
+    add(k("fuse_multibonds"), bc("TNmulti", A(include=("m0", "m1")), "include"), bc("TNmulti", A(exclude=("m0",)), "exclude"),
+        bc("TNmulti", lambda x, h: ((), {"gauges": {"m0": np.array([1.0, 2.0]), "m1": np.array([1.0, 0.5, 0.25])}}), "gauges"))
+    add(k("equalize_norms"), bc("TN", A(1.0, check_zero=True), "check_zero"), bc("TNmulti", A(2.0), "TNmulti"))
+    for nm in ("rank_simplify", "split_simplify", "pair_simplify", "loop_simplify"):
+        add(k(nm), bc("TNsimp", A(equalize_norms=True), "equalize_norms", gauge=True), bc("TNsimp", lambda x, h: ((), {"cache": set()}), "cache", gauge=True))
+    add(k("rank_simplify"), bc("TNsimp", A(max_combinations=2), "max_combinations", gauge=True), bc("TNsimp", A(equalize_norms=1.0, check_zero=True), "value check_zero", gauge=True))
+    for nm in ("diagonal_reduce", "antidiag_gauge", "column_reduce"):
+        add(k(nm), bc("TNstruct", lambda x, h: ((), {"cache": set(), "output_inds": STRUCT_OUT}), "cache", gauge=True), bc("TNstruct", A(atol=1e-6), "atol", gauge=True))
+    add(k("full_simplify"), bc("TNsimp", A("ADCRSPL", equalize_norms=True), "all steps equalize", gauge=True),
+        bc("TNsimp", A("R", rank_simplify_opts={"max_combinations": 3}), "opts", gauge=True), bc("TNsimp", A("ADCR", split_method="qr"), "split_method", gauge=True))
+    add(k("canonize_around"), bc("TN", A(("I0", "I1"), which="any"), "which=any", gauge=True), bc("TNline", A("I0", max_distance=1), "max_distance", gauge=True),
+        bc("TNline", A("I1", min_distance=1), "min_distance", gauge=True), bc("TN", A("I2", absorb="both", gauge_links=True), "gauge_links", gauge=True),
+        bc("TNline", A("I3", equalize_norms=True), "equalize_norms", gauge=True))
+    add(k("gauge_all_canonize"), bc("TN", A(max_iterations=2, absorb="left"), "absorb left", gauge=True), bc("TN", lambda x, h: ((), {"max_iterations": 2, "gauges": {}}), "gauges dict", gauge=True),
+        bc("TN", A(max_iterations=1, equalize_norms=True), "equalize", gauge=True))
+    add(k("gauge_all_simple"), bc("TN", lambda x, h: ((), {"max_iterations": 3, "gauges": {}}), "gauges dict", gauge=True), bc("TNmulti", A(max_iterations=2, fuse_multibonds=False), "no fuse", gauge=True),
+        bc("TN", A(max_iterations=2, tol=1e-3, equalize_norms=True, power=0.5), "tol power", gauge=True))
+    add(k("gauge_all"), bc("TN", A("simple", max_iterations=2), "simple", gauge=True))
+    add(k("gauge_local"), bc("TN", A("I1", max_distance=2, method="simple"), "simple", gauge=True), bc("TN", A(("I0", "I1"), which="any", max_distance=1), "any", gauge=True))
+    add(k("compress_all"), bc("TNline", A(cutoff=0.0, canonize=False), "no canonize", gauge=True), bc("TNline", A(cutoff=0.0, tree_gauge_distance=2), "tree gauge", gauge=True),
+        bc("TNline", A(cutoff=0.0, mode="basic"), "mode basic", gauge=True), bc("TNline", A(cutoff=0.0, mode="virtual-tree"), "mode virtual-tree", gauge=True))
+    add(k("compress_all_simple"), bc("TNline", A(cutoff=0.0, max_iterations=2), "no truncation", gauge=True), bc("TNline", lambda x, h: ((), {"cutoff": 0.0, "gauges": {}}), "gauges dict", gauge=True))
+    add(k("compress_all_tree"), bc("TNline", A(max_bond=2), "max_bond", gauge=True))
+    add(k("compress_all_1d"), bc("TNline", A(cutoff=0.0, canonize=False), "no canonize", gauge=True))
+    for m in ("qr", "svd", "exp", "cayley", "mgs"):
+        add(k("isometrize"), bc("TNleft", A(method=m), "method=%s" % m))
+        add(("Tensor", "isometrize"), bc("T", A(left_inds=("a", "b", "c"), method=m), "method=%s" % m))
+    add(k("isometrize"), bc("TNline", A(allow_no_left_inds=True), "allow_no_left_inds"))
+    add(k("randomize"), bc("TN", A(seed=2, dist="uniform"), "uniform", rnd=True))
+    add(k("view_as"), bc("PEPS", lambda x, h: ((__import__("quimb.tensor.tn2d.core", fromlist=["x"]).TensorNetwork2DVector,), {}), "PEPS->2DVector"), bc("TN2D", lambda x, h: ((qtn.TensorNetwork,), {}), "TN2D->TN"))
+    add(k("view_like"), bc("TNV", lambda x, h: ((R_TN(h.seed),), {}), "->plain"))
+    add(k("replace_with_svd"), bc("TN", A(("I1", "I2"), ("k1", "b0"), 1e-12, method="svd", which="any", keep_tags=False, ltags=("L",), rtags=("R",)), "ltags", gauge=True),
+        bc("TN", A(("I0", "I3"), ("k1", "b0"), 1e-12, method="svd", which="!any"), "which=!any", gauge=True),
+        bc("TN", A(("I1", "I2"), ("k1", "b0"), 1e-12, method="eigh", right_inds=("k2", "b2")), "eigh", gauge=True),
+        bc("TN", A(("I1", "I2"), ("k1", "b0"), 1e-12, method="svd", max_bond=2, absorb="right"), "max_bond", gauge=True, orderdep="truncation"),
+        bc("MPS", A(("I1", "I2"), ("k1", "b0"), 1e-12, method="svd", start=1, stop=3), "1D start/stop", gauge=True))
+    add(k("insert_operator"), bc("MPSMPS", lambda x, h: ((h.G(4), ("I1",), ("I2",)), {}), "no tags") if False else bc("TN", lambda x, h: ((h.G(2), ("I2", "EVEN"), ("I3",)), {}), "tag tuples"))
+    add(k("gate_inds_with_tn"), bc("TN", lambda x, h: ((("k0", "missing"), qtn.TensorNetwork([qtn.Tensor(h.G(4).reshape(2, 2, 2, 2), inds=("o0", "o1", "i0", "i1"), tags=("G",))]),
+                                                       ("i0", "i1"), ("o0", "o1")), {}), "missing ind"))
+    add(k("drape_bond_between"), bc("TN2D", A("I0,0", "I0,1", "I1,1"), "TN2D"))
+    add(k("insert_compressor_between_regions"), bc("TN", A(("I0", "I1"), ("I2", "I3"), cutoff=0.0), "no truncation", gauge=True),
+        bc("TN", A(("I0", "I1"), ("I2", "I3"), cutoff=0.0, mode="basic"), "mode basic", gauge=True) if False else bc("TN", A(("I0", "I1"), ("I2", "I3"), cutoff=0.0, new_tags=("NEW",), bond_ind="bnd"), "new_tags bond_ind", gauge=True),
+        bc("TN", A(("I0",), ("I1",), cutoff=0.0, select_which="all", insert_into=False), "insert_into False", gauge=True, noself=True))
+    add(k("hyperinds_resolve"), bc("TNhyper", A("mps"), "mode mps"), bc("TNhyper", A("tree", sorter="centrality"), "sorter"), bc("TNhyper", A("dense", output_inds=("k0", "k1", "k2", "k3", "h")), "output hyper"))
+    add(k("contract_around"), bc("TN2D", A("I0,0", max_bond=8, canonize_distance=1, canonize_after_distance=1), "canonize", gauge=True, collapse=True),
+        bc("TN2D", A(("I1,1", "I1,2"), which="any", max_bond=8, compress_late=False), "which any early", gauge=True, collapse=True),
+        bc("TN2D", A("I1,1", max_bond=8, max_distance=1), "max_distance", gauge=True, collapse=True),
+        bc("TN2D", A("I1,1", max_bond=8, equalize_norms=1.0), "equalize_norms", gauge=True, collapse=True))
+    add(k("contract_compressed"), bc("TN2D", A("greedy", max_bond=16, compress_late=True, canonize_distance=1), "late canonize", gauge=True, collapse=True),
+        bc("TN2D", A("greedy", max_bond=16, strip_exponent=True), "strip_exponent", gauge=True, noself=True),
+        bc("TN2D", A("greedy", max_bond=16, compress_mode="basic", equalize_norms=False), "basic", gauge=True, collapse=True))
+    add(k("flip"), bc("TN", A("k1"), "single str"))
+    add(k("reindex"), bc("TNhyper", A({"h": "g"}), "hyper index"))
+    add(k("retag"), bc("PEPS", A({"X0": "ROW0"}), "PEPS row tag"))
+    add(k("to"), bc("TN", A("complex64"), "dtype spec string"))
+
+    # ---- arbitrary geometry
+    v = lambda n: ("TensorNetworkGenVector", n)  # noqa
+    o = lambda n: ("TensorNetworkGenOperator", n)  # noqa
+    g = lambda n: ("TensorNetworkGen", n)  # noqa
+    for recv, s1, s2, s3 in (("TNV", 2, (1, 3), (0, 2, 3)), ("MPS", 3, (1, 2), (0, 2, 4)), ("PEPS", (0, 1), ((0, 0), (0, 1)), ((0, 0), (1, 1), (1, 2)))):
+        gs = {"TNV": v("gate_simple"), "MPS": v("gate_simple"), "PEPS": v("gate_simple")}[recv]
+        add(gs, bc(recv, (lambda x, h, w=s1: ((h.G(2), (w,)), {"gauges": {}})), "1 site tuple", gauge=True),
+            bc(recv, (lambda x, h, w=s1: ((h.G(2), w), {"gauges": {}})), "1 site bare", gauge=True),
+            bc(recv, (lambda x, h, w=s2: ((h.G(4), w), {"gauges": {}, "cutoff": 0.0})), "2 sites", gauge=True),
+            bc(recv, (lambda x, h, w=s2: ((h.G(4), w), {"gauges": {}, "cutoff": 0.0, "renorm": False, "dagger": True})), "2 sites no renorm dagger", gauge=True))
+
+        def prepared(x, h, w=s2):
+            gauges = {}
+            x.copy().gauge_all_simple_(max_iterations=2, gauges=gauges)
+            return ((h.G(4), w), {"gauges": {}, "cutoff": 0.0, "info": {}})
+        add(gs, bc(recv, prepared, "2 sites info", gauge=True))
+        if recv != "TNV":
+            far = {"MPS": (0, 3), "PEPS": ((0, 0), (1, 2))}[recv]
+            add(gs, bc(recv, (lambda x, h, w=far: ((h.G(4), w), {"gauges": {}, "cutoff": 0.0})), "long range", gauge=True))
+    for c in (False, True, "split-gate"):
+        add(v("gate"), bc("TNV", (lambda x, h, c=c: ((h.G(2), 2), {"contract": c})), "1 site contract=%s" % c),
+            bc("TNV", (lambda x, h, c=c: ((h.G(2), (2,)), {"contract": c, "tags": ("G",)})), "1 site tuple contract=%s" % c))
+    for c in (False, True) + SPLITS:
+        add(v("gate"), bc("TNV", (lambda x, h, c=c: ((h.G(4), (3, 1)), dict(co, contract=c))), "2 sites contract=%s" % c, gauge=True))
+    for pt in (False, True, "register", "sites"):
+        add(v("gate"), bc("TNV", (lambda x, h, pt=pt: ((h.G(4), (0, 1)), {"propagate_tags": pt, "tags": ("G",)})), "propagate=%s" % pt),
+            bc("TNV", (lambda x, h, pt=pt: ((h.G(4), (0, 1)), dict(co, propagate_tags=pt, contract="split-gate"))), "split-gate propagate=%s" % pt, gauge=True))
+    add(v("gate"), bc("TNV", lambda x, h: ((h.G(8), (0, 1, 2)), {}), "3 sites"), bc("TNV", lambda x, h: ((h.G(8), (0, 1, 2)), {"contract": True}), "3 sites contract"),
+        bc("TNV", lambda x, h: ((h.G(4), (0, 1)), {"which": "site", "dagger": True}), "which site dagger"))
+    for nm, which in (("gate", None), ("gate_sandwich", None), ("gate_upper", None), ("gate_lower", None)):
+        for c in (False, True, "split", "reduce-split", "split-gate"):
+            add(o(nm), bc("TNO", (lambda x, h, c=c: ((h.G(2), 1), dict(co, contract=c))), "1 site contract=%s" % c, gauge=True),
+                bc("TNO", (lambda x, h, c=c: ((h.G(4), (1, 2)), dict(co, contract=c))), "2 sites contract=%s" % c, gauge=True))
+    add(o("gate"), bc("TNO", lambda x, h: ((h.G(2), 0), {"which": "lower", "tags_lower": ("LO",)}), "which lower"), bc("TNO", lambda x, h: ((h.G(2), 0), {"which": "both"}), "which both"))
+    add(o("gate_simple"), bc("TNO", lambda x, h: ((h.G(2), (1,)), {"gauges": {}, "which": "lower"}), "1 site lower", gauge=True),
+        bc("TNO", lambda x, h: ((h.G(2), (1,)), {"gauges": {}, "which": "upper"}), "1 site upper", gauge=True),
+        bc("TNO", lambda x, h: ((h.G(4), (1, 2)), {"gauges": {}, "which": "lower", "cutoff": 0.0}), "2 sites lower", gauge=True))
+    add(v("reindex_sites"), bc("TNV", A("q{}", where=[0]), "where list"), bc("MPS", A("q{}", where=range(1, 3)), "where range"))
+    add(g("retag_all"), bc("PEPS", A("S{},{}"), "PEPS"))
+    add(g("align"), bc("TNV", lambda x, h: ((R_TNO(h.seed), R_TNV(h.seed + 50)), {"ind_ids": ("p{}", "q{}", "r{}")}), "ind_ids", noself=True) if False else
+        bc("TNV", lambda x, h: ((R_TNO(h.seed), R_TNV(h.seed + 50)), {"trace": True}), "trace", noself=True),
+        bc("MPS", lambda x, h: ((R_MPS(h.seed + 50),), {}), "two MPS", noself=True))
+    add(g("flatten"), bc("TNVV", A(fuse_multibonds=False), "no fuse"))
+    add(v("gate_with_op_lazy"), bc("TNV", lambda x, h: ((R_TNO(h.seed),), {"transpose": True}), "transpose"), bc("MPS", lambda x, h: ((qtn.MPO_rand(5, 2, dtype="complex128", seed=h.seed),), {}), "MPS/MPO"))
+    add(o("apply"), bc("TNO", lambda x, h: ((R_TNV(h.seed),), {"contract": False}), "vec lazy", noself=True), bc("TNO", lambda x, h: ((R_TNV(h.seed),), {"compress": True, "cutoff": 0.0}), "vec compress", noself=True, gauge=True),
+        bc("TNO", lambda x, h: ((R_TNO(h.seed + 50),), {"contract": False}), "op lazy", noself=True))
+    add(o("partial_transpose"), bc("TNO", A((1,)), "one site"), bc("TNO", A((0, 1, 2, 3)), "all sites"))
+    add(o("gate_upper_with_op_lazy"), bc("TNO", lambda x, h: ((R_TNO(h.seed + 50),), {"transpose": True}), "transpose"))
+    add(o("gate_sandwich_with_op_lazy"), bc("TNO", lambda x, h: ((R_TNO(h.seed + 50),), {"dagger": True}), "dagger"))
+
+    # ---- 1D
+    gv = ("TensorNetwork1DVector", "gate")
+    for c in (False, True, "swap+split", "split-gate", "swap-split-gate", "auto-split-gate", "auto-mps"):
+        add(gv, bc("MPS", (lambda x, h, c=c: ((h.G(2), 1), dict(co, contract=c))), "1 site contract=%s" % c, gauge=True),
+            bc("MPS", (lambda x, h, c=c: ((h.G(4), (2, 3)), dict(co, contract=c))), "adjacent contract=%s" % c, gauge=True))
+    for c in (False, "swap+split", "nonlocal", "auto-mps", "swap-split-gate"):
+        add(gv, bc("MPS", (lambda x, h, c=c: ((h.G(4), (0, 3)), dict(co, contract=c))), "far contract=%s" % c, gauge=True),
+            bc("MPS", (lambda x, h, c=c: ((h.G(4), (4, 1)), dict(co, contract=c))), "far reversed contract=%s" % c, gauge=True))
+    add(gv, bc("MPS", lambda x, h: ((h.G(8), (0, 2, 4)), {}), "3 sites lazy"), bc("MPS", lambda x, h: ((h.G(8), (1, 2, 3)), dict(co, contract="nonlocal")), "3 sites nonlocal", gauge=True),
+        bc("MPS", lambda x, h: ((h.G(4), (1, 2)), {"tags": ("G",), "propagate_tags": False}), "no propagate"),
+        bc("MPS", lambda x, h: ((h.G(4), (1, 2)), {"propagate_tags": "register", "contract": "split-gate", "cutoff": 0.0}), "register", gauge=True),
+        bc("MPS", lambda x, h: ((h.G(4), (1, 2)), dict(co, contract="swap+split", info={})), "info", gauge=True),
+        bc("MPSc", lambda x, h: ((h.G(4), (3, 0)), {}), "cyclic wrap lazy"))
+    f = lambda n: ("TensorNetwork1DFlat", n)  # noqa
+    add(f("canonicalize"), bc("MPS", A(0), "left end"), bc("MPS", A(4), "right end"), bc("MPS", A((3, 1)), "reversed pair"), bc("MPS", A(2, cur_orthog=(0, 4)), "cur_orthog given"),
+        bc("MPS", lambda x, h: ((2,), {"info": {}}), "info"), bc("MPS", lambda x, h: ((1,), {"bra": x.H}), "bra", noperm="bra is built from the receiver"))
+    add(f("left_canonicalize"), bc("MPS", A(stop=2, start=1), "start stop"), bc("MPS", A(normalize=True), "normalize"))
+    add(f("right_canonicalize"), bc("MPS", A(stop=1, start=3), "start stop"), bc("MPO", A(normalize=True), "MPO normalize"))
+    add(f("swap_sites_with_compress"), bc("MPS", A(3, 2, cutoff=0.0), "i>j", gauge=True), bc("MPS", lambda x, h: ((0, 1), {"cutoff": 0.0, "info": {}}), "info", gauge=True),
+        bc("MPS", A(1, 2, max_bond=2), "max_bond", gauge=True, orderdep="truncation"), bc("MPO", A(1, 2, cutoff=0.0), "MPO", gauge=True))
+    add(f("swap_site_to"), bc("MPS", A(3, 0, cutoff=0.0), "leftwards", gauge=True), bc("MPS", A(1, 2, cutoff=0.0), "one step", gauge=True))
+    m = lambda n: ("MatrixProductState", n)  # noqa
+    add(m("gate_split"), bc("MPS", lambda x, h: ((h.G(4), (3, 2)), dict(co)), "reversed", gauge=True), bc("MPS", lambda x, h: ((h.G(4), (0, 1)), {"max_bond": 2}), "max_bond", gauge=True, orderdep="truncation"))
+    add(m("gate_with_auto_swap"), bc("MPS", lambda x, h: ((h.G(4), (1, 2)), dict(co)), "adjacent", gauge=True), bc("MPS", lambda x, h: ((h.G(4), (4, 1)), dict(co)), "reversed far", gauge=True),
+        bc("MPS", lambda x, h: ((h.G(4), (0, 2)), dict(co, swap_back=False)), "no swap back", gauge=True), bc("MPS", lambda x, h: ((h.G(4), (0, 2)), dict(co, info={})), "info", gauge=True))
+    mpo5 = lambda x, h: U.detlabels(qtn.MPO_rand(5, 2, dtype="complex128", seed=h.seed + 9), "w")  # noqa
+    for meth in ("direct", "dm", "zipup", "zipup-first", "fit", "src", "srcmps"):
+        kw = {"method": meth, "cutoff": 0.0}
+        if meth in ("fit", "src", "srcmps"):
+            kw.update(max_bond=8)
+        add(m("gate_with_mpo"), bc("MPS", (lambda x, h, kw=kw: ((mpo5(x, h),), dict(kw))), "method=%s" % meth, gauge=True, rnd=meth.startswith("src") or meth == "fit", permtol=1e-6))
+    add(m("gate_with_mpo"), bc("MPS", lambda x, h: ((mpo5(x, h),), {"transpose": True}), "transpose", gauge=True), bc("MPS", lambda x, h: ((mpo5(x, h),), {"inplace_mpo": True}), "inplace_mpo", gauge=True))
+    add(m("gate_with_submpo"), bc("MPS", lambda x, h: ((U.detlabels(qtn.MPO_rand(2, 2, dtype="complex128", seed=h.seed + 9), "w"),), {"where": (1, 3)}), "where", gauge=True),
+        bc("MPS", lambda x, h: ((R_MPOsparse(h.seed),), {"method": "zipup", "cutoff": 0.0}), "zipup", gauge=True), bc("MPS", lambda x, h: ((R_MPOsparse(h.seed),), {"transpose": True, "info": {}}), "transpose info", gauge=True))
+    add(m("gate_nonlocal"), bc("MPS", lambda x, h: ((h.G(4), (1, 2)), {}), "adjacent", gauge=True), bc("MPS", lambda x, h: ((h.G(4), (4, 0)), {"transpose": True}), "reversed transpose", gauge=True),
+        bc("MPS", lambda x, h: ((h.G(8), (0, 2, 3)), {"method": "zipup", "cutoff": 0.0}), "3 sites zipup", gauge=True), bc("MPS", lambda x, h: ((h.G(2), (2,)), {}), "1 site", gauge=True))
+    add(m("measure"), bc("MPS", A(0, outcome=0), "first site outcome", noself=True, gauge=True), bc("MPS", A(4, outcome=1, renorm=False), "last no renorm", noself=True, gauge=True),
+        bc("MPS", lambda x, h: ((2,), {"outcome": 0, "info": {}}), "info", noself=True, gauge=True), bc("MPS", A(3, outcome=1, get="outcome"), "get", noself=True, gauge=True) if False else
+        bc("MPS", A(2, outcome=1, remove=True, renorm=False), "remove no renorm", noself=True, gauge=True))
+    add(m("add_MPS"), bc("MPS", lambda x, h: ((R_MPS(h.seed + 50),), {"compress": True, "cutoff": 0.0}), "compress", gauge=True))
+    p = lambda n: ("MatrixProductOperator", n)  # noqa
+    add(p("add_MPO"), bc("MPO", lambda x, h: ((R_MPO(h.seed + 50),), {"compress": True, "cutoff": 0.0}), "compress", gauge=True))
+    add(p("fill_empty_sites"), bc("MPOsparse", A("full", phys_dim=2), "phys_dim"), bc("MPOsparse", lambda x, h: ((), {"fill_array": h.G(2)}), "fill_array"))
+    add(p("gate_sandwich_with_auto_swap"), bc("MPO", lambda x, h: ((h.G(4), (1, 2)), dict(co)), "adjacent", gauge=True), bc("MPO", lambda x, h: ((h.G(4), (3, 0)), dict(co, dagger=True)), "reversed dagger", gauge=True),
+        bc("MPO", lambda x, h: ((h.G(4), (0, 2)), dict(co, swap_back=False)), "no swap back", gauge=True), bc("MPO", lambda x, h: ((h.G(2), (1,)), dict(co)), "1 site", gauge=True))
+    add(("TensorNetwork1D", "flatten"), bc("MPSMPS", A(fuse_multibonds=False), "no fuse"))
+    add(("TensorNetwork1DVector", "reindex_sites"), bc("MPS", A("q{}", where=slice(1, 3)), "slice"))
+    add(("TensorNetwork1DOperator", "reindex_lower_sites"), bc("MPO", A("l{}", where=slice(1, None)), "open slice"))
+
+    # ---- 2D / 3D
+    g2 = ("TensorNetwork2DVector", "gate")
+    for c in (False, True, "split-gate"):
+        add(g2, bc("PEPS", (lambda x, h, c=c: ((h.G(2), (1, 2)), {"contract": c})), "1 site contract=%s" % c), bc("PEPS", (lambda x, h, c=c: ((h.G(2), ((1, 2),)), {"contract": c})), "1 site nested contract=%s" % c))
+    for c in (False, True) + SPLITS:
+        add(g2, bc("PEPS", (lambda x, h, c=c: ((h.G(4), ((0, 1), (1, 1))), dict(co, contract=c))), "vertical contract=%s" % c, gauge=True))
+    for c in (False, "split-gate", "reduce-split"):
+        add(g2, bc("PEPS", (lambda x, h, c=c: ((h.G(4), ((0, 0), (1, 2))), dict(co, contract=c))), "far contract=%s" % c, gauge=True))
+    for pt in (False, True, "register", "sites"):
+        add(g2, bc("PEPS", (lambda x, h, pt=pt: ((h.G(4), ((0, 0), (0, 1))), {"propagate_tags": pt, "tags": ("G",)})), "propagate=%s" % pt))
+    t2 = lambda n: ("TensorNetwork2D", n)  # noqa
+    for mode in ("mps", "full-bond", "projector", "l2bp", "zipup", "direct"):
+        add(t2("contract_boundary_from_xmin"), bc("TN2D", A((0, 1), max_bond=8, mode=mode), "mode=%s" % mode, gauge=True))
+        add(t2("contract_boundary_from_ymax"), bc("TN2D", A((2, 1), max_bond=8, mode=mode), "mode=%s" % mode, gauge=True))
+    add(t2("contract_boundary_from_xmin"), bc("TN2D", A((0, 1), (0, 1), max_bond=8), "yrange", gauge=True), bc("TN2D", A((0, 1), max_bond=8, canonize=False, sweep_reverse=True), "no canonize reverse", gauge=True),
+        bc("PEPSPEPS", A((0, 1), max_bond=8, layer_tags=("KET", "BRA")), "layer_tags", gauge=True) if False else bc("TN2D", A((0, 2), max_bond=8), "whole range", gauge=True))
+    add(t2("contract_boundary_from_xmax"), bc("TN2D", A((2, 1), (1, 2), max_bond=8), "yrange", gauge=True), bc("TN2D", A((2, 1), max_bond=8, sweep_reverse=True), "reverse", gauge=True))
+    add(t2("contract_boundary_from_ymin"), bc("TN2D", A((0, 1), (0, 1), max_bond=8), "xrange", gauge=True), bc("TN2D", A((0, 1), max_bond=8, canonize=False), "no canonize", gauge=True))
+    add(t2("contract_boundary_from"), bc("TN2D", A((0, 2), (2, 1), "ymax", max_bond=8), "ymax", gauge=True), bc("TN2D", A((2, 1), (0, 2), "xmax", max_bond=8), "xmax", gauge=True), bc("TN2D", A((0, 2), (0, 1), "ymin", max_bond=8), "ymin", gauge=True))
+    add(t2("contract_boundary"), bc("TN2D", A(max_bond=8, sequence=("xmin", "ymax")), "sequence", collapse=True, gauge=True), bc("TN2D", A(max_bond=8, around=((1, 1),)), "around", gauge=True),
+        bc("TN2D", A(max_bond=8, strip_exponent=True), "strip_exponent", gauge=True, noself=True), bc("TN2D", A(max_bond=8, equalize_norms=1.0, final_contract=False), "equalize", gauge=True),
+        bc("TN2D", A(max_bond=8, mode="full-bond"), "full-bond", collapse=True, gauge=True), bc("TN2D", A(max_bond=8, xmin=1, max_separation=0, final_contract=False), "xmin", gauge=True))
+    add(t2("contract_mps_sweep"), bc("TN2D", A(max_bond=8, direction="ymax"), "ymax", gauge=True, collapse=True), bc("TN2D", A(max_bond=8), "auto direction", gauge=True, collapse=True))
+    add(t2("coarse_grain_hotrg"), bc("TN2Dbig", A("y", max_bond=4), "y", gauge=True, orderdep="truncation"), bc("TN2Dbig", A("x", max_bond=16, lazy=True), "lazy", gauge=True),
+        bc("TN2Dbig", A("x", max_bond=16, canonize=True), "canonize", gauge=True))
+    add(t2("contract_hotrg"), bc("TN2Dbig", A(max_bond=4, sequence=("y", "x"), final_contract=False), "sequence", gauge=True, orderdep="truncation"), bc("TN2Dbig", A(max_bond=4, lazy=True, final_contract=False), "lazy", gauge=True, orderdep="truncation"))
+    add(t2("contract_ctmrg"), bc("TN2Dbig", A(max_bond=4, lazy=True, final_contract=False), "lazy", gauge=True, orderdep="truncation"), bc("TN2Dbig", A(max_bond=4, mode="mps", final_contract=False), "mode mps", gauge=True, orderdep="truncation"))
+    add(t2("flatten"), bc("PEPSPEPS", A(fuse_multibonds=False), "no fuse"))
+    add(("TensorNetwork2DVector", "normalize"), bc("PEPS", A(max_bond=16, balance_bonds=True, equalize_norms=True), "balance equalize"), bc("PEPS", A(max_bond=16, mode="full-bond"), "full-bond"))
+    add(("TensorNetwork2DVector", "reindex_sites"), bc("PEPS", A("q{},{}", where=[(0, 0)]), "one site"))
+    g3 = ("TensorNetwork3DVector", "gate")
+    for c in (False, True, "split-gate"):
+        add(g3, bc("PEPS3D", (lambda x, h, c=c: ((h.G(2), (1, 0, 1)), {"contract": c})), "1 site contract=%s" % c))
+    for c in (False, True) + SPLITS:
+        add(g3, bc("PEPS3D", (lambda x, h, c=c: ((h.G(4), ((0, 1, 0), (1, 1, 0))), dict(co, contract=c))), "2 sites contract=%s" % c, gauge=True))
+    t3 = lambda n: ("TensorNetwork3D", n)  # noqa
+    for mode in ("peps", "l2bp3d", "projector3d"):
+        add(t3("contract_boundary_from"), bc("TN3D", A((0, 1), (0, 1), (0, 1), "zmin", max_bond=8, mode=mode), "mode=%s" % mode, gauge=True, noself=True))
+    for fw in ("xmin", "xmax", "ymin", "ymax", "zmax"):
+        rng = {"xmin": ((0, 1), (0, 1), (0, 2)), "xmax": ((1, 0), (0, 1), (0, 2)), "ymin": ((0, 1), (0, 1), (0, 2)), "ymax": ((0, 1), (1, 0), (0, 2)), "zmax": ((0, 1), (0, 1), (2, 1))}[fw]
+        add(t3("contract_boundary_from"), bc("TN3D", A(*rng, fw, max_bond=8), fw, gauge=True, noself=True))
+    add(t3("contract_boundary"), bc("TN3D", A(max_bond=8, final_contract=False), "no final", gauge=True), bc("TN3D", A(max_bond=8, sequence=("zmin", "zmax")), "sequence", collapse=True, gauge=True))
+    add(t3("flatten"), bc("PEPS3DPEPS3D", A(fuse_multibonds=False), "no fuse"))
+
+    # ---- Tensor
+    t = lambda n: ("Tensor", n)  # noqa
+    add(t("squeeze"), bc("Tsq", A(include=("s", "u"), exclude=("u",)), "include+exclude"))
+    add(t("isel"), bc("T", A({"b": slice(0, 2), "d": 1}), "slice+int"), bc("T", A({"b": "r"}), "random slice?") if False else bc("T", A({"a": 1, "b": 2, "c": 0, "d": 1}), "all labels"))
+    add(t("fuse"), bc("T", A((("ab", ("a", "b")), ("cd", ("c", "d")))), "sequence of pairs"), bc("T", A({"x": ("a",)}), "single label group"), bc("T", A({"abcd": ("d", "c", "b", "a")}), "everything"))
+    add(t("randomize"), bc("T", A(seed=3, dist="uniform", loc=1.0), "uniform", rnd=True))
+    add(t("rand_reduce"), bc("T", A("b", dtype="float64", seed=7), "dtype", rnd=True))
+    add(t("symmetrize"), bc("T", A("c", "a"), "swapped args"))
+    add(t("gate"), bc("T", lambda x, h: ((h.G(2), "d"), {"preserve_inds": False, "transpose": True}), "no-preserve transpose"))
+    add(t("new_ind_pair_with_identity"), bc("T", A("x", "y", 1), "d=1"))
+    add(t("to"), bc("T", A(backend="numpy"), "backend kw"))
+    return B
+
 _TABLE = None
 
 
@@ -702,8 +973,9 @@ def table():
         _TABLE = {}
         for f in (_tensor_table, _tn_table, _ag_table, _1d_table, _2d3d_table):
             _TABLE.update(f())
-        for key, cases in _noop_table().items():
-            _TABLE[key] = list(_TABLE.get(key, [])) + cases
+        for extra in (_noop_table, _branch_table):
+            for key, cases in extra().items():
+                _TABLE[key] = list(_TABLE.get(key, [])) + cases
     return _TABLE
 
 
